@@ -717,10 +717,9 @@ class Fxp():
                     val, signed, n_word, _ = utils.str2num(val, self.signed, self.n_word, None, return_sizes=True)
                     n_frac = self.n_frac
 
-                if n_frac is not None and n_frac == 0:
-                    vdtype = int
-                else:
-                    vdtype = float
+                # (the value type follows the converted numbers, as it does for a list of strings: forcing
+                # int for n_frac == 0 made a non-integer literal beyond the int64 range wrap before saturation)
+                vdtype = None
 
         elif isinstance(val, (list, tuple, str)):
             # if val is a str(s), convert to number(s)
